@@ -81,6 +81,96 @@ func AssumeGood(closed bool, x *int) int {
 	return n
 }
 
+// E1 path sensitivity: the same condition tested twice; a guard hidden in a boolean flag
+func SameCondGood(x *int, ok bool) int {
+	if ok {
+		step()
+	}
+	n := 0
+	if ok {
+		n = sink(x) // only on paths that did step()
+	}
+	return n
+}
+
+func SameCondBad(x *int, ok, ok2 bool) int {
+	if ok {
+		step()
+	}
+	n := 0
+	if ok2 {
+		n = sink(x)
+	}
+	return n
+}
+
+func FlagGuardGood(x *int) int {
+	valid := x != nil && cond()
+	if valid {
+		return sink(x)
+	}
+	return 0
+}
+
+func FlagGuardBad(x *int) int {
+	valid := cond()
+	if valid {
+		return sink(x)
+	}
+	return 0
+}
+
+// boolean decision table: step() exactly when a || (b && c)
+func TableGood(a, b, c bool) {
+	if a {
+		step()
+		return
+	}
+	both := b && c
+	if !both {
+		return
+	}
+	step()
+}
+
+func TableBad(a, b, c bool) {
+	if a || b {
+		step()
+	}
+}
+
+// release through a wrapper
+func closeLogged(r *Res) {
+	if cond() {
+		_ = errX
+	}
+	r.Close()
+}
+
+func WrapperGood(r *Res) error {
+	if cond() {
+		closeLogged(r)
+		return errX
+	}
+	keep = append(keep, r)
+	return nil
+}
+
+func maybeClose(r *Res) {
+	if cond() {
+		r.Close()
+	}
+}
+
+func WrapperBad(r *Res) error {
+	if cond() {
+		maybeClose(r)
+		return errX
+	}
+	keep = append(keep, r)
+	return nil
+}
+
 // ---- E3 who-may-write ---------------------------------------------------
 type Box struct {
 	mu sync.Mutex
@@ -312,7 +402,7 @@ func SwapGood(s []int, x int) []int {
 `
 
 func runControls(c *Ctx, rep *Report) {
-	ru := rep.Rule(rep.Prop+"-CTRL", "controls", 20, "positive/negative controls of the engines on the fixture package (virtual, via overlay): every engine must accept its Good shapes and reject its Bad ones on this very run")
+	ru := rep.Rule(rep.Prop+"-CTRL", "controls", 30, "positive/negative controls of the engines on the fixture package (virtual, via overlay): every engine must accept its Good shapes and reject its Bad ones on this very run")
 	if c.Pkg(controlsPkg) == nil {
 		ru.Err("fixture", "fixture package not loaded")
 		return
@@ -386,6 +476,68 @@ func runControls(c *Ctx, rep *Report) {
 		expect("E1b assume closed=false reaches the sink", true, w2 != "")
 	} else {
 		ru.Err("control AssumeGood", "fixture function missing")
+	}
+	// E1 path sensitivity
+	for _, x := range []struct {
+		n   string
+		bad bool
+	}{{"SameCondGood", false}, {"SameCondBad", true}} {
+		f := fn(x.n)
+		if f == nil {
+			ru.Err("control "+x.n, "fixture function missing")
+			continue
+		}
+		w, _ := (&Cut{Fn: f, Target: isSink, Sep: isStep}).Run(c)
+		expect("E1 same condition tested twice "+x.n, x.bad, w != "")
+	}
+	for _, x := range []struct {
+		n   string
+		bad bool
+	}{{"FlagGuardGood", false}, {"FlagGuardBad", true}} {
+		f := fn(x.n)
+		if f == nil {
+			ru.Err("control "+x.n, "fixture function missing")
+			continue
+		}
+		w, _ := (&Cut{Fn: f, Target: isSink, EdgeCut: edgeNil(func(v ssa.Value) bool { return isParamVar(c, v, "x") }, false)}).Run(c)
+		expect("E1 guard carried by a boolean flag "+x.n, x.bad, w != "")
+	}
+	for _, x := range []struct {
+		n   string
+		bad bool
+	}{{"TableGood", false}, {"TableBad", true}} {
+		f := fn(x.n)
+		if f == nil {
+			ru.Err("control "+x.n, "fixture function missing")
+			continue
+		}
+		atom := func(name string) atomPred {
+			return func(v ssa.Value) (bool, bool) { return isParamVar(c, v, name), true }
+		}
+		tab, ok := boolTable(f, []atomPred{atom("a"), atom("b"), atom("c")}, isStep)
+		good := ok
+		for a, o := range tab {
+			want := a&1 != 0 || (a&2 != 0 && a&4 != 0)
+			if want != o.all || want != o.some {
+				good = false
+			}
+		}
+		expect("E7b boolean decision table a||(b&&c) "+x.n, x.bad, !good)
+	}
+	for _, x := range []struct {
+		n   string
+		bad bool
+	}{{"WrapperGood", false}, {"WrapperBad", true}} {
+		f := fn(x.n)
+		if f == nil {
+			ru.Err("control "+x.n, "fixture function missing")
+			continue
+		}
+		w, _ := (&Cut{Fn: f, Sep: func(in ssa.Instruction) bool { return releasesLike(in, "Close") }, Target: func(in ssa.Instruction) bool {
+			ret, ok := in.(*ssa.Return)
+			return ok && !isNilConst(retVal(ret, 0))
+		}}).Run(c)
+		expect("release through a wrapper "+x.n, x.bad, w != "")
 	}
 	// E3
 	{
